@@ -134,4 +134,40 @@ theorem C09_parameter_order_nat (m n : Nat) :
       rw [← hcs]; exact fun x hx => Nat.isDigit_of_mem_toDigits (by omega) (by omega) hx
     rw [hcs, parseFloat_digits c cs hd, ← hcs, Nat.ofDigitChars_ten_toDigits]
 
+/-- a written plain number: decimal digits, optionally followed by a point and more digits -/
+structure PlainNum where
+  ip : Py.Str
+  fp : Py.Str
+  ip_ne : ip ≠ []
+  ip_digits : ∀ c ∈ ip, c.isDigit = true
+  fp_ne : fp ≠ []
+  fp_digits : ∀ c ∈ fp, c.isDigit = true
+
+/-- **C09 (parameter order, unconditional for plain decimal literals)**: for ALL decimal literals `a = ddd.fff`, `b = ddd.fff` (any number of
+digits on either side of the point) the two-parameter forms are read as the documented family with the value of `a` first and the value of
+`b` second, and the one-parameter forms with the value of `a` — no side condition left. (`uniform` truncates like `int`.) -/
+theorem C09_parameter_order_decimal (a b : PlainNum) :
+    parseDist (distTextOf "gauss".toList (a.ip ++ '.' :: a.fp) (b.ip ++ '.' :: b.fp)) = .ok { fam := .gauss, params := [decValue a.ip a.fp, decValue b.ip b.fp] } ∧
+    parseDist (distTextOf "uniform".toList (a.ip ++ '.' :: a.fp) (b.ip ++ '.' :: b.fp)) = .ok { fam := .uniform, params := [truncRat (decValue a.ip a.fp), truncRat (decValue b.ip b.fp)] } ∧
+    (decValue a.ip a.fp ≠ decValue b.ip b.fp →
+      parseDist (distTextOf "schulz_zimm".toList (a.ip ++ '.' :: a.fp) (b.ip ++ '.' :: b.fp)) = .ok { fam := .schulzZimm, params := [decValue a.ip a.fp, decValue b.ip b.fp] }) ∧
+    parseDist (distTextOf "log_normal".toList (a.ip ++ '.' :: a.fp) (b.ip ++ '.' :: b.fp)) = .ok { fam := .logNormal, params := [decValue a.ip a.fp, decValue b.ip b.fp] } ∧
+    parseDist (distText1Of "poisson".toList (a.ip ++ '.' :: a.fp)) = .ok { fam := .poisson, params := [decValue a.ip a.fp] } ∧
+    parseDist (distText1Of "flory_schulz".toList (a.ip ++ '.' :: a.fp)) = .ok { fam := .florySchulz, params := [decValue a.ip a.fp] } := by
+  have ha := TokOK_decimal a.ip a.fp a.ip_ne a.ip_digits a.fp_ne a.fp_digits
+  have hb := TokOK_decimal b.ip b.fp b.ip_ne b.ip_digits b.fp_ne b.fp_digits
+  obtain ⟨h1, h2, h3, h4, h5, h6⟩ := C09_parameter_order _ _ _ _ ha hb
+  refine ⟨h1, h2, h3, h4, ?_, h6⟩
+  apply h5
+  obtain ⟨c, cs, hcs⟩ := List.exists_cons_of_ne_nil a.ip_ne
+  have hd : ∀ x ∈ c :: cs, x.isDigit = true := by rw [← hcs]; exact a.ip_digits
+  rw [hcs]
+  exact parseFloat_decimal c cs a.fp hd a.fp_ne a.fp_digits
+
+/-- `log_normal(50.0, 1.1)` and `gauss(100.5, 20.25)` are instances -/
+example : ∃ a b : PlainNum, a.ip = "50".toList ∧ a.fp = "0".toList ∧ b.ip = "1".toList ∧ b.fp = "1".toList ∧
+    decValue a.ip a.fp = 50 ∧ decValue b.ip b.fp = 11 / 10 :=
+  ⟨⟨"50".toList, "0".toList, by decide, by decide, by decide, by decide⟩, ⟨"1".toList, "1".toList, by decide, by decide, by decide, by decide⟩,
+   rfl, rfl, rfl, rfl, by decide +kernel, by decide +kernel⟩
+
 end GBS.P
